@@ -101,6 +101,19 @@ func (l *Lexer) skipWhitespace() {
 	}
 }
 
+// trimTrailingSpace moves the lexer position back over any spaces, tabs or carriage returns
+// at the end of the current token so they do not become part of it.
+func (l *Lexer) trimTrailingSpace() {
+	for l.pos > l.start {
+		switch l.input[l.pos-1] {
+		case ' ', '\t', '\r':
+			l.pos--
+		default:
+			return
+		}
+	}
+}
+
 // next returns, and consumes, the next rune in the input.
 func (l *Lexer) next() rune {
 	r, width := utf8.DecodeRuneInString(l.rest())
@@ -395,6 +408,8 @@ func lexTaskCommands(l *Lexer) lexFn {
 		case r == '\n':
 			// If there's a newline, might be more commands on the next line
 			l.backup()
+			// The command may end in blanks or a carriage return (CRLF) which we should clean up
+			l.trimTrailingSpace()
 			l.emit(token.COMMAND)
 			l.skipWhitespace()
 		case strings.HasPrefix(l.rest(), token.LINTERP.String()):
@@ -407,10 +422,8 @@ func lexTaskCommands(l *Lexer) lexFn {
 			l.absorb(token.RINTERP)
 		case r == '}':
 			l.backup()
-			// The command may end in a space which we should clean up
-			if strings.HasSuffix(l.all(), " ") {
-				l.pos--
-			}
+			// The command may end in blanks which we should clean up
+			l.trimTrailingSpace()
 			if len(l.all()) != 0 {
 				// If we actually have a command and not just an empty token
 				l.emit(token.COMMAND)
